@@ -38,12 +38,16 @@ type Job struct {
 	Opts      JobOpts          `json:"opts"`
 	// Mode "tracer": one tracer scenario per entry of Schedules (same index)
 	Tracer []drive.TracerScenario `json:"tracer"`
+	// Mode "timer"
+	TimerDefs []drive.TimerDef      `json:"timer_defs"`
+	Timer     []drive.TimerSchedule `json:"timer"`
 }
 
 type RunLog struct {
-	Run  int          `json:"run"`
-	Log  []drive.Rec  `json:"log"`
-	TLog []drive.TRec `json:"tlog,omitempty"`
+	Run   int           `json:"run"`
+	Log   []drive.Rec   `json:"log"`
+	TLog  []drive.TRec  `json:"tlog,omitempty"`
+	TmLog []drive.TmRec `json:"tmlog,omitempty"`
 }
 
 func (o JobOpts) driveOpts() drive.Options {
@@ -109,6 +113,9 @@ func WorkerMain(args []string) int {
 		if job.Opts.Mode == "tracer" {
 			tlog := drive.TracerRun(i, job.Tracer[i])
 			line, _ = json.Marshal(RunLog{Run: i, Log: []drive.Rec{}, TLog: tlog})
+		} else if job.Opts.Mode == "timer" {
+			tm := drive.TimerRun(i, job.TimerDefs, job.Timer[i], job.Opts.driveOpts().T)
+			line, _ = json.Marshal(RunLog{Run: i, Log: []drive.Rec{}, TmLog: tm})
 		} else {
 			p := job.Programs[sch.Prog]
 			log := drive.Run(i, p, sch, job.Opts.driveOpts())
@@ -218,7 +225,8 @@ func ReplayAllRaw(dir string, job *Job, nworkers int) (map[int]RunLog, error) {
 					res[lastBegin] = RunLog{Run: lastBegin, Log: []drive.Rec{
 						{Run: lastBegin, Ev: "init", N: job.Schedules[lastBegin].Prog, Flows: []string{}, Vars: map[string]int{}},
 						{Run: lastBegin, Ev: "crash", Kind: crashSummary(stderr.String()), Flows: []string{}, Vars: map[string]int{}},
-					}, TLog: []drive.TRec{{Run: lastBegin, Ev: "init", P: 1}, {Run: lastBegin, Ev: "crash", S: crashSummary(stderr.String())}}}
+					}, TLog: []drive.TRec{{Run: lastBegin, Ev: "init", P: 1}, {Run: lastBegin, Ev: "crash", S: crashSummary(stderr.String())}},
+						TmLog: []drive.TmRec{{Run: lastBegin, Ev: "init"}, {Run: lastBegin, Ev: "crash"}}}
 					mu.Unlock()
 					start = lastBegin + 1
 				} else {
